@@ -187,5 +187,5 @@ pub fn run(g: &mut Global) {
         &check,
     );
     let ml = g.tier.pick(20_000usize, 1_000_000usize);
-    g.random("random", g.tier.pick(640, 1600), &move || strategy(ml), &check);
+    g.random("random", g.tier.pick(640, 6000), &move || strategy(ml), &check);
 }
